@@ -295,6 +295,10 @@ type known struct {
 	Description string `json:"description"`
 	Commit      string `json:"commit,omitempty"`
 	Witness     any    `json:"witness,omitempty"`
+	// MaxPerThousand > 0: the finding is known as a rare residue (a timing
+	// window that cannot be closed); it is only taken for the known finding
+	// while it shows in at most that many cases per thousand of a run
+	MaxPerThousand int `json:"max_per_thousand,omitempty"`
 }
 
 func loadKnown() []known {
@@ -586,6 +590,7 @@ func summarize(p *Prop, tier string, seed uint64, results []*Result, ag *agg, wa
 		v   Viol
 	}
 	var viols []vrec
+	knownRecs := map[int][]vrec{}
 	for i, r := range results {
 		if r == nil {
 			notrun++
@@ -603,6 +608,7 @@ func summarize(p *Prop, tier string, seed uint64, results []*Result, ag *agg, wa
 			for ki, k := range kn {
 				if k.Property == p.ID && k.Status == "known" && k.Signature != "" && k.Signature == v.Sig {
 					knownHits[ki]++
+					knownRecs[ki] = append(knownRecs[ki], vrec{i, v})
 					matched = true
 					break
 				}
@@ -610,6 +616,13 @@ func summarize(p *Prop, tier string, seed uint64, results []*Result, ag *agg, wa
 			if !matched {
 				viols = append(viols, vrec{i, v})
 			}
+		}
+	}
+	for ki, n := range knownHits {
+		if m := kn[ki].MaxPerThousand; m > 0 && n*1000 > m*evals {
+			// more often than the residue it is known as: a violation again
+			viols = append(viols, knownRecs[ki]...)
+			delete(knownHits, ki)
 		}
 	}
 	if len(samples) == 0 {
